@@ -3,7 +3,7 @@ import re
 import vlib
 from vlib import Leg, hexs
 
-N = {"quick": 600, "thorough": 30000, "search": 800}
+N = {"quick": 4000, "thorough": 100000, "search": 3000}
 
 LOCALS = ["a", "b", "c", "x", "y", "f", "g", "h", "i", "k", "v", "n1", "t", "acc", "_"]
 GLOBALS = ["G1", "G2", "cfg", "init", "util", "State", "m1", "helper"]
@@ -324,12 +324,14 @@ ENTRY = re.compile(r"([^;{\[]+)\{([^}]*)\}")
 
 
 def canon(line):
-    """keep only the diagnostics of types 2, 3, 4, 17"""
+    """keep only the diagnostics of types 2, 3, 4, 17, as a SET per file: the analysis can publish one diagnostic twice
+    (`local f, v = f or nil, ...`: the read of f is visited by two paths); the property speaks of what is reported, so the
+    observable compared with the model is the set of (type, range)"""
     if not line.startswith("diags=["):
         return line
     files = []
     for m in ENTRY.finditer(line[len("diags=["):]):
-        ds = [d for d in m.group(2).split(",") if d.split("@")[0] in KEEP]
+        ds = list(dict.fromkeys(d for d in m.group(2).split(",") if d.split("@")[0] in KEEP))
         if ds:
             files.append(m.group(1) + "{" + ",".join(ds) + "}")
     return "diags=[" + ";".join(files) + "]"
